@@ -1,9 +1,43 @@
-(* C10 - NTS authentication is sound.  Statements only; proofs in Proofs/NtsAuthProofs.v. *)
+(* C10 - NTS authentication is sound: only untampered packets under the right
+   key pass.  Statements only; proofs live in Proofs/NtsAuthProofs.v, the
+   satisfiability instance in Proofs/NtsAuthInstance.v.
+
+   Reading guide.  seal/open are the AEAD (miscreant AES-SIV-CMAC) as symbols;
+   [ideal_aead seal open] is the symbolic-crypto assumption (Open inverts Seal,
+   succeeds only on Seal's own output for the same key/nonce/associated data,
+   Seal is injective, ciphertext = plaintext + 16 bytes).  [server_accept open b
+   key] is nts.DecodePacket followed by nts.ProcessRequest, [client_accept open b
+   key reqID] is DecodePacket followed by ProcessResponse.
+   [verifies seal b key p] says: b decodes to p, the authenticator field of b
+   starts at p_pos p (type 0x404 there, nonce and ciphertext are the bytes of
+   that field), everything else in p is a function of b[:p_pos p] alone, the key
+   has a legal length, the nonce is 16 bytes, and the ciphertext is
+   seal key nonce (b[:p_pos p]) pt for some pt: the authenticator verifies
+   under key over exactly the header and extension bytes that precede it.
+   Quantification is over ALL byte strings, keys, nonces, identifiers. *)
 From Coq Require Import ZArith List Bool.
-From ST Require Import Base.Ints Model.NtsAuth Proofs.NtsAuthProofs.
+From ST Require Import Base.Ints Model.NtsAuth Proofs.NtsAuthProofs Proofs.NtsAuthInstance.
 Import ListNotations.
 Open Scope Z_scope.
 
+(* ---- soundness ---- *)
+
+(* a server accepts a request only if its authenticator verifies under the key
+   it was given (the C2S key from the cookie) over exactly the preceding bytes *)
+Theorem C10_sound_server : forall seal open, ideal_aead seal open ->
+  forall b key r, server_accept open b key = Ok r -> exists p, verifies seal b key p.
+Proof. exact c10_sound_server. Qed.
+Print Assumptions C10_sound_server.
+
+(* a client additionally only if the unique identifier - which lies inside the
+   authenticated bytes - equals that of its outstanding request *)
+Theorem C10_sound_client : forall seal open, ideal_aead seal open ->
+  forall b key reqID r, client_accept open b key reqID = Ok r ->
+  exists p, verifies seal b key p /\ p_uid p = reqID.
+Proof. exact c10_sound_client. Qed.
+Print Assumptions C10_sound_client.
+
+(* acceptance by the authentication step alone, for any packet structure *)
 Theorem C10_authenticate_sound :
   forall (seal : bytes -> bytes -> option bytes -> bytes -> bytes)
          (open : bytes -> bytes -> option bytes -> bytes -> option bytes),
@@ -14,3 +48,197 @@ Theorem C10_authenticate_sound :
     exists pt, p_ct p = seal key (p_nonce p) (Some (firstn (p_pos p) b)) pt.
 Proof. exact authenticate_sound. Qed.
 Print Assumptions C10_authenticate_sound.
+
+(* what a successful DecodePacket says about the bytes: length <= 1024, the
+   authenticator at p_pos p with at least 28 bytes, its nonce and ciphertext
+   read from there, and unique identifier / cookies / placeholders determined
+   by b[:p_pos p] *)
+Theorem C10_decode_spec : forall b p, decode_packet b = Ok p -> wire_ok b p.
+Proof. exact decode_packet_spec. Qed.
+Print Assumptions C10_decode_spec.
+
+(* ---- tampering, keys, direction, identifier ---- *)
+
+(* two datagrams that verify and carry the same ciphertext were verified under
+   the same key, carry the same nonce and the same authenticated bytes (hence
+   the same identifier, cookies, placeholders) *)
+Theorem C10_same_ciphertext : forall seal open, ideal_aead seal open ->
+  forall b1 k1 p1 b2 k2 p2,
+  verifies seal b1 k1 p1 -> verifies seal b2 k2 p2 -> p_ct p1 = p_ct p2 ->
+  k1 = k2 /\ p_nonce p1 = p_nonce p2 /\ p_pos p1 = p_pos p2 /\
+  firstn (p_pos p1) b1 = firstn (p_pos p1) b2 /\
+  p_uid p1 = p_uid p2 /\ p_cookies p1 = p_cookies p2 /\ p_nph p1 = p_nph p2.
+Proof. exact c10_same_ciphertext. Qed.
+Print Assumptions C10_same_ciphertext.
+
+(* any change to an authenticated byte or to the nonce, or the use of a
+   different key (in particular the key of the other direction), is rejected
+   by the server and by a client with any outstanding identifier.  A changed
+   ciphertext is covered by C10_sound_*: it is accepted only if it is itself
+   the seal under the receiver's key of the received nonce and bytes. *)
+Theorem C10_tamper : forall seal open, ideal_aead seal open ->
+  forall b1 k1 p1 b2 k2 p2,
+  verifies seal b1 k1 p1 -> decode_packet b2 = Ok p2 -> p_ct p2 = p_ct p1 ->
+  (k2 <> k1 \/ p_nonce p2 <> p_nonce p1 \/ firstn (p_pos p1) b2 <> firstn (p_pos p1) b1) ->
+  (forall r, server_accept open b2 k2 <> Ok r) /\ (forall id r, client_accept open b2 k2 id <> Ok r).
+Proof. exact c10_tamper. Qed.
+Print Assumptions C10_tamper.
+
+(* the keys of the two directions are different (TLS exporter with injective
+   context separation), so C10_tamper applies to a swapped direction *)
+Theorem C10_directions_differ : forall export : bytes -> bytes -> bytes,
+  (forall l c c', export l c = export l c' -> c = c') ->
+  fst (export_keys export) <> snd (export_keys export).
+Proof. exact directions_differ. Qed.
+Print Assumptions C10_directions_differ.
+
+(* a response to a different request is rejected *)
+Theorem C10_wrong_uid : forall seal open, ideal_aead seal open ->
+  forall b key p reqID r,
+  decode_packet b = Ok p -> p_uid p <> reqID -> client_accept open b key reqID <> Ok r.
+Proof. exact c10_wrong_uid. Qed.
+Print Assumptions C10_wrong_uid.
+
+(* ---- completeness ---- *)
+
+(* FULL STATEMENT (kept visible):
+     forall hdr uid cookies placeholders key pt rnd b,
+       enc_packet seal hdr uid cookies placeholders key pt rnd = Ok b ->
+       (b is not truncated at 1024 bytes, uid is a multiple of 4 bytes, pt is empty
+        or the output of new_response) ->
+       server_accept open b key = Ok _  /\  client_accept open b key uid = Ok _.
+   Proved here: the authentication step.  A packet whose authenticator field
+   carries the seal under the receiver's key of the bytes in front of it, with a
+   16-byte nonce, is accepted whenever the decrypted extension fields are well
+   formed.  MISSING in Coq: that DecodePacket applied to the byte string that
+   EncodePacket assembles yields exactly that nonce, ciphertext and position
+   (decoder-after-encoder round trip over the field list).  That part is
+   enforced on every run by the oracle: every packet the real encoder emits
+   must be accepted by the real receiver (cases tagged "complete"), and the
+   model must agree byte for byte with EncodePacket and DecodePacket. *)
+Theorem C10_complete_partial : forall seal open, ideal_aead seal open ->
+  forall b key p pt cs,
+  key_ok key = true -> length (p_nonce p) = 16%nat -> (p_pos p <= length b)%nat ->
+  p_ct p = seal key (p_nonce p) (Some (firstn (p_pos p) b)) pt ->
+  plain_loop (length pt) pt 0 (p_cookies p) = Ok cs ->
+  authenticate open b key p =
+    Ok {| p_uid := p_uid p; p_cookies := cs; p_nph := p_nph p; p_nonce := p_nonce p; p_ct := p_ct p; p_pos := p_pos p |}.
+Proof. exact c10_auth_complete. Qed.
+Print Assumptions C10_complete_partial.
+
+(* ---- cookies ---- *)
+
+(* TLV encodings are inverted by the decoders *)
+Theorem C10_cookie_tlv_roundtrip : forall c, wf_ecookie c -> ec_decode (ec_encode c) = Ok c.
+Proof. exact ec_roundtrip. Qed.
+Print Assumptions C10_cookie_tlv_roundtrip.
+
+Theorem C10_cookie_plain_roundtrip : forall c, wf_cookie c -> sc_decode (sc_encode c) = Ok c.
+Proof. exact sc_roundtrip. Qed.
+Print Assumptions C10_cookie_plain_roundtrip.
+
+(* a cookie issued by EncryptWithNonce + Encode opens under the key that sealed
+   it and yields exactly the sealed algorithm and keys *)
+Theorem C10_cookie_complete : forall seal open, ideal_aead seal open ->
+  forall c key keyid rnd cb,
+  wf_cookie c -> lenz (sc_s2c c) + lenz (sc_c2s c) < 65000 -> length rnd = 16%nat ->
+  cookie_seal seal c key keyid rnd = Ok cb -> cookie_open open cb key = Ok c.
+Proof. exact c10_cookie_complete. Qed.
+Print Assumptions C10_cookie_complete.
+
+(* it opens only under that key: if the ciphertext inside the presented bytes
+   is the one sealed under key0 for contents c0, a successful Decode + Decrypt
+   used key0, found the sealing nonce and returns exactly c0 *)
+Theorem C10_cookie_sound : forall seal open, ideal_aead seal open ->
+  forall cb key c ec key0 n0 c0,
+  cookie_open open cb key = Ok c -> ec_decode cb = Ok ec ->
+  ec_ct ec = seal key0 n0 None (sc_encode c0) -> wf_cookie c0 ->
+  key = key0 /\ ec_nonce ec = n0 /\ c = c0.
+Proof. exact c10_cookie_sound. Qed.
+Print Assumptions C10_cookie_sound.
+
+(* ---- the executable oracles accept the model, for all inputs ---- *)
+
+(* hs describes the packets honest parties sent (honest_ok: 16-byte nonce, the
+   ciphertext is the seal under the sender's key of the bytes before its
+   authenticator, identifier inside those bytes); unforgeable: every seal under
+   the receiver's key that reaches it was made by one of them, for the
+   receiver's direction (no one without the key can make one).  Then for EVERY
+   datagram b, key, direction and outstanding identifier the oracle that is
+   evaluated on the implementation accepts the model's decision. *)
+Theorem C10_model_meets_packet_oracle : forall seal open, ideal_aead seal open ->
+  forall hs b key dir reqid,
+  (forall h, In h hs -> honest_ok seal h) -> unforgeable seal hs b key dir ->
+  (forall h, In h hs -> model_accepts open (h_bytes h) (h_key h) (h_dir h) (h_uid h) = true) ->
+  (dir = 0 \/ dir = 1) ->
+  C10_packet_ok hs b key dir reqid (model_accepts open b key dir reqid) = true.
+Proof. exact c10_packet_oracle. Qed.
+Print Assumptions C10_model_meets_packet_oracle.
+
+Theorem C10_model_meets_cookie_oracle : forall seal open, ideal_aead seal open ->
+  forall c0 key0 keyid rnd cb0 cb key,
+  wf_cookie c0 -> lenz (sc_s2c c0) + lenz (sc_c2s c0) < 65000 -> length rnd = 16%nat ->
+  cookie_seal seal c0 key0 keyid rnd = Ok cb0 ->
+  (forall ec n ad pt, ec_decode cb = Ok ec -> ec_ct ec = seal key n ad pt ->
+                      ec_ct ec = seal key0 rnd None (sc_encode c0)) ->
+  C10_cookie_ok cb0 key0 c0 cb key (cookie_result open cb key) = true.
+Proof. exact c10_cookie_oracle. Qed.
+Print Assumptions C10_model_meets_cookie_oracle.
+
+Theorem C10_model_meets_export_oracle : forall export : bytes -> bytes -> bytes,
+  (forall l c c', export l c = export l c' -> c = c') ->
+  let '(s2c, c2s) := export_keys export in C10_export_ok s2c c2s s2c c2s = true.
+Proof. exact export_oracle. Qed.
+Print Assumptions C10_model_meets_export_oracle.
+
+(* ---- listeners ---- *)
+(* the NTS part of runIPServer / runSCIONServer (DecodePacket, FirstCookie,
+   cookie Decode, provider.Get, Decrypt, ProcessRequest with the cookie's C2S
+   key): a request is answered only if its first cookie opens under the server
+   key its key id names, and the request carries unchanged the authenticated
+   bytes, nonce and ciphertext of a request an honest client sealed under the
+   C2S key in that cookie *)
+Theorem C10_listener_sound : forall seal open, ideal_aead seal open ->
+  forall getkey hs b p sc,
+  server_nts open getkey b = Ok (p, sc) ->
+  (forall h, In h hs -> honest_ok seal h) -> unforgeable seal hs b (sc_c2s sc) 0 ->
+  existsb (fun h => (h_dir h =? 0) && untampered b h) hs = true /\
+  exists cb ec mk, first_cookie_of b = Some cb /\ ec_decode cb = Ok ec /\ getkey (ec_id ec) = Some mk /\
+                   cookie_open open cb mk = Ok sc.
+Proof. exact c10_listener_sound. Qed.
+Print Assumptions C10_listener_sound.
+
+(* ---- loops: the fuel given is never exhausted ---- *)
+Theorem C10_no_fuel : forall open b key reqID,
+  server_accept open b key <> OutOfFuel /\ client_accept open b key reqID <> OutOfFuel.
+Proof. exact c10_no_fuel. Qed.
+Print Assumptions C10_no_fuel.
+
+Theorem C10_cookie_no_fuel : forall open cb key, cookie_open open cb key <> OutOfFuel.
+Proof. exact c10_cookie_no_fuel. Qed.
+Print Assumptions C10_cookie_no_fuel.
+
+(* ---- the hypotheses are satisfiable ---- *)
+Example C10_ideal_aead_instance : ideal_aead ex_seal ex_open.
+Proof. exact (conj ex_open_seal (conj ex_open_only_seal (conj ex_seal_inj ex_seal_len))). Qed.
+
+Example C10_export_instance : forall l c c' : bytes, (fun (_ c : bytes) => c) l c = (fun (_ c : bytes) => c) l c' -> c = c'.
+Proof. intros l c c' H. exact H. Qed.
+
+(* the accepting path of the model is reachable: with a (non-injective, merely
+   computable) cipher that prepends 16 zero bytes, the packet that the encoder
+   model emits for a 48-byte header and a 32-byte identifier is accepted by the
+   server model and by the client model with that identifier, and rejected by
+   the client model with another identifier *)
+Example C10_accept_reachable :
+  let seal := fun (k n : bytes) (ad : option bytes) (p : bytes) => repeat 0 16 ++ p in
+  let open := fun (k n : bytes) (ad : option bytes) (c : bytes) => Some (skipn 16 c) in
+  let key := repeat 7 32 in let rnd := repeat 9 16 in
+  match enc_packet seal (repeat 0 48) (repeat 1 32) [] [] key [] rnd with
+  | Ok b => match server_accept open b key, client_accept open b key (repeat 1 32), client_accept open b key (repeat 2 32) with
+            | Ok _, Ok _, Err EUnexpectedResponseID => True
+            | _, _, _ => False
+            end
+  | _ => False
+  end.
+Proof. vm_compute. exact I. Qed.
